@@ -1,4 +1,5 @@
 """C07 -- regularization matrices: symmetric, PSD/PD, stated quadratic form; block assembly in order."""
+import itertools
 import numpy as np
 from fractions import Fraction
 from harness.common import cz, cq, cnat, cbool, clist, ctup, cres, import_aa, frac, exn_name
@@ -9,7 +10,7 @@ PROPS = "Props/C07.v"
 COQ_CHECK = ("Model.C07", "check")
 COQ_FALLBACK = None
 COQ_IMPORTS = ""
-SHARD = 70
+SHARD = 40
 RULE = ("mock mappers over random symmetric multigraph neighbour arrays (rings, stars, paths, isolated pixels, duplicate edges, "
         "shuffled row order, padded with -1; 2-10 pixels) with dyadic coefficients of either sign, dyadic signals in and outside [0,1], "
         "random split-cross tables (1, 3 or 4 distinct vertices, barycentric or signed dyadic weights, own pixel present/absent); real "
@@ -20,14 +21,22 @@ RULE = ("mock mappers over random symmetric multigraph neighbour arrays (rings, 
         "regularization_weights_from(index)); rectangular_neighbors_from on EVERY shape 1..8 x 1..8 (thorough 1..12), also through "
         "Mesh2DRectangular.neighbors; Gaussian / exponential kernel schemes on 2-7 half-lattice points (covariance assembly, inverse "
         "contract, Cholesky); a malformed stream (neighbour index out of range -> IndexError, negative index wrap, asymmetric lists "
-        "where the spec is silent). Non-trivial = at least 3 parameters and 2 neighbour pairs / cross rows; distinct = distinct JSON input.")
+        "where the spec is silent); REAL inversions (aa.Inversion on a real masked Imaging dataset with use_w_tilde False/True, "
+        "InversionImagingMapping / InversionImagingWTilde directly, MockInversion): 1-3 linear objects mixing real MapperRectangular / "
+        "MapperDelaunay (seven schemes + both kernel schemes or None), MockLinearObjFuncList and a harness subclass of "
+        "AbstractLinearObjFuncList (Constant / ConstantZeroth / Zeroth or None), a plain LinearObj (Zeroth or None), every order of every "
+        "list, regularization_matrix and regularization_matrix_reduced (fresh and cached); kernel schemes on EXTENDED meshes (60-150 points, "
+        "spacing 1/2-3/4 of the scale, separations 5.5-18 scale lengths: rectangular blocks and strips, staggered point sets), every covariance "
+        "entry against the profile table, SPD observed with margins. Non-trivial = at least 3 parameters and 2 neighbour pairs / cross rows; distinct = distinct JSON input.")
 EXHAUSTIVE = {"quick": "rectangular_neighbors_from: all shapes 1..8 x 1..8", "thorough": "rectangular_neighbors_from: all shapes 1..12 x 1..12"}
 TRUSTED = ["hand-written Gallina model coq/Model/C07.v (update lists in the code's loop order + scatter), tied to /repo by this "
            "correspondence run, evaluated inside Coq by vm_compute at exact rationals; comparison tolerance 1e-11*(1+|v|) because the "
            "1e-8 ridge is not a dyadic number (all other generated quantities are dyadic, so only the diagonal is inexact)",
            "scipy.linalg.block_diag and numpy.delete modelled by contract; scipy.spatial.Delaunay / find_simplex are oracles whose "
            "outputs (neighbour lists, split-cross tables) are fed to both sides, their symmetry / distinctness being checked per case",
-           "pixel signals (real power **signal_scale, division by the maximum) are taken from the implementation and are an input of the model"]
+           "pixel signals (real power **signal_scale, division by the maximum) are taken from the implementation and are an input of the model",
+           "extended-mesh kernel cases: the returned covariance matrix is handed to Coq as indexes into the list of its distinct values "
+           "(exact; decoded inside Coq); its inverse is checked in Python only (contract to 1e-4, eigenvalue margins)"]
 ASSUMPTIONS = ["real arithmetic (no rounding): theorems over R with the ridge a parameter eps > 0",
                "neighbour lists symmetric and in range (proved for nothing but checked on every generated mesh); split-cross rows have "
                "distinct vertices and at least one vertex",
@@ -126,6 +135,14 @@ def rand_mock_obj(rng, n, style=None, wide=False, signed=False):
     return {"params": n, "nb": nb, "sizes": sizes, "signals": rand_signals(rng, n, wide), "smap": smap, "ssizes": ssz, "sw": sw}
 
 def gen_inputs(tier, rng):
+    """the streams differ a lot in what a case costs inside Coq (extended-mesh kernel cases, real inversions): deal them out
+    with a stride, so that every shard of consecutive cases gets the same mix"""
+    items = list(gen_inputs0(tier, rng))
+    S = 11
+    for r in range(S):
+        for j in range(r, len(items), S): yield items[j]
+
+def gen_inputs0(tier, rng):
     big = tier == "thorough"
     # A. mock mappers, every scheme
     for i in range(900 if big else 56):
@@ -180,6 +197,86 @@ def gen_inputs(tier, rng):
             elif kind == "neg": o["nb"][r][j] = -rng.randint(1, n)
             else: o["nb"][r][j] = (o["nb"][r][j] + 1) % n
         yield {"op": "mock", "scheme": rand_scheme(rng, rng.choice(["Constant", "ConstantZeroth", "AdaptiveBrightness"])), "obj": o, "malformed": kind}
+
+    # R. REAL inversions (aa.Inversion / InversionImagingMapping / InversionImagingWTilde on a real Imaging dataset): block assembly
+    #    of the real AbstractInversion.regularization_matrix(_reduced) over mappers AND non-mapper objects, every order
+    for base in realinv_bases(rng, big):
+        for k, perm in enumerate(itertools.permutations(range(len(base["objs"])))):
+            # the blocks of a list with kernel schemes are checked one by one in its first order only (same blocks in every order)
+            yield {"op": "realinv", "mask": base["mask"], "seed": base["seed"], "objs": [base["objs"][i] for i in perm], "check_blocks": k == 0}
+    # X. kernel schemes on EXTENDED meshes (some pair further than 5 scale lengths apart, spacing well below the scale)
+    for inp in kernelx_inputs(rng, big):
+        yield inp
+
+FUNC_SCHEMES = ["Constant", "ConstantZeroth", "Zeroth"]
+KERNELS = ["GaussianKernel", "ExponentialKernel"]
+def rand_real_obj(rng, kind, regd):
+    """one linear object of a real inversion; regd: with a regularization?"""
+    o = {"kind": kind, "scheme": None, "signal_scale": rng.choice([1, 2])}
+    if kind in ("func", "funcsub", "lin"):
+        o["params"] = rng.randint(1, 4)
+        if regd: o["scheme"] = rand_scheme(rng, "Zeroth" if kind == "lin" else rng.choice(FUNC_SCHEMES))
+    elif kind == "rect":
+        o["shape"] = list(rng.choice([(3, 3), (3, 4), (4, 3)]))
+        if regd:
+            n = rng.choice(SCHEMES[:5] + SCHEMES[:5] + KERNELS)
+            o["scheme"] = rand_scheme(rng, n) if n in SCHEMES else {"name": n, "par": [rng.choice(COEFS), rng.choice(["1", "3/2", "2"])]}
+    else:
+        o["npts"] = rng.randint(5, 7); o["seed"] = rng.randrange(10 ** 9)
+        if regd:
+            n = rng.choice(SCHEMES + SCHEMES + KERNELS)
+            o["scheme"] = rand_scheme(rng, n) if n in SCHEMES else {"name": n, "par": [rng.choice(COEFS), rng.choice(["1", "3/2", "2"])]}
+    return o
+
+def realinv_bases(rng, big):
+    C3 = {"name": "Constant", "par": ["3"]}
+    fixed = [
+        [("func", None), ("func", C3), ("rect", {"name": "Constant", "par": ["2"]})],          # the prompt's class
+        [("func", {"name": "Zeroth", "par": ["3/2"]}), ("rect", None), ("delaunay", {"name": "ConstantSplit", "par": ["1"]})],
+        [("funcsub", {"name": "ConstantZeroth", "par": ["2", "1/2"]}), ("lin", None)],
+        [("lin", {"name": "Zeroth", "par": ["2"]}), ("delaunay", None)],
+        [("func", None), ("funcsub", C3)],
+        [("func", C3), ("func", None), ("lin", {"name": "Zeroth", "par": ["5/4"]})],
+        [("delaunay", {"name": "AdaptiveBrightness", "par": ["1/2", "2"]}), ("func", {"name": "ConstantZeroth", "par": ["1", "3"]}), ("lin", None)],
+        [("rect", {"name": "GaussianKernel", "par": ["2", "3/2"]}), ("func", None), ("funcsub", C3)],
+        [("delaunay", {"name": "ExponentialKernel", "par": ["1/2", "1"]}), ("lin", {"name": "Zeroth", "par": ["3"]})],
+    ]
+    for spec in fixed:
+        objs = []
+        for kind, sch in spec:
+            o = rand_real_obj(rng, kind, False); o["scheme"] = sch
+            if kind in ("func", "funcsub", "lin"): o["params"] = rng.randint(2, 4)
+            objs.append(o)
+        yield {"mask": rng.choice(MASKS), "seed": rng.randrange(10 ** 9), "objs": objs}
+    for i in range(60 if big else 8):
+        k = [1, 2, 3, 3, 2, 3][i % 6]
+        kinds = [rng.choice(["func", "func", "funcsub", "lin", "rect", "delaunay"]) for _ in range(k)]
+        regs = [rng.random() < 0.6 for _ in range(k)]
+        if k >= 2 and i % 2 == 0:
+            # force the mixed class: an object without regularization, a regularized non-mapper object (and a mapper when k = 3)
+            kinds[0] = rng.choice(["func", "funcsub", "lin"]); regs[0] = True
+            regs[1] = False
+            if k == 3: kinds[2] = rng.choice(["rect", "delaunay"])
+        yield {"mask": rng.choice(MASKS), "seed": rng.randrange(10 ** 9), "objs": [rand_real_obj(rng, kd, rg) for kd, rg in zip(kinds, regs)]}
+
+# small masks of a 5 x 5 (6 x 5) image: True = masked
+MASKS = [["11111", "10001", "10001", "10001", "11111"], ["11111", "11011", "10001", "11011", "11111"],
+         ["11111", "10001", "10101", "10001", "11111"], ["11111", "10011", "10001", "10001", "11001", "11111"]]
+
+def kernelx_inputs(rng, big):
+    """extended meshes: separations reach 5.5 - 12 scale lengths, spacing 1/2 .. 3/4 of the scale; 60 - 150 points"""
+    shapes = [(12, 12), (7, 20), (6, 16), (10, 10), (5, 24), (8, 14)]
+    todo = [(True, "rect", (12, 12), "1/2"), (False, "rect", (6, 18), "5/8"), (True, "hex", (9, 12), "5/8"), (False, "hex", (10, 10), "5/8"),
+            (True, "rect", (6, 16), "1/2"),
+            # strips: few points, separations up to 15 scale lengths
+            (True, "rect", (3, 24), "1/2"), (False, "rect", (3, 30), "5/8"), (True, "hex", (4, 20), "1/2")]
+    if big:
+        todo += [(True, "rect", (7, 20), "5/8"), (False, "rect", (7, 20), "5/8"), (False, "rect", (12, 12), "1/2")]
+        for i in range(24):
+            todo.append((bool(i % 2), ["rect", "hex"][(i // 2) % 2], rng.choice(shapes), rng.choice(["1/2", "5/8", "3/4", "1/2"])))
+    for gauss, mesh, shape, spacing in todo:
+        yield {"op": "kernelx", "gauss": gauss, "mesh": mesh, "shape": list(shape), "spacing": spacing, "scale": rng.choice(["1", "1/2", "2"]),
+               "coef": rng.choice(COEFS), "drop": rng.randint(4, 20) if mesh == "hex" else 0, "seed": rng.randrange(10 ** 9)}
 
 def split_small(rng, n, width):
     smap, ssz, sw = [], [], []
@@ -312,6 +409,8 @@ def run_case(inp):
     if op == "inversion": return run_inversion(aa, inp)
     if op == "kernel": return run_kernel(aa, inp)
     if op == "rectnb": return run_rectnb(aa, inp)
+    if op == "realinv": return run_realinv(aa, inp)
+    if op == "kernelx": return run_kernelx(aa, inp)
     raise ValueError(op)
 
 def size_of(s, o):
@@ -506,3 +605,227 @@ def run_rectnb(aa, inp):
         ok = rows2 == rows and int(mesh.pixels) == h * w
     return {"coq": f"(KRect {cnat(h)} {cnat(w)} {czm(rows)})", "out": rows if h * w <= 12 else rows[:6], "py_ok": ok,
             "kind": "rectnb" + (":degenerate" if min(h, w) < 2 else ""), "nontrivial": min(h, w) >= 2}
+
+# ------------------------------------------------------------------ real inversions
+_HFUNC = {}
+def hfunc_cls(aa):
+    """a function-list linear object that is neither a mapper nor one of the repo's mocks"""
+    if "c" not in _HFUNC:
+        class HarnessFuncList(aa.AbstractLinearObjFuncList):
+            def __init__(self, n, grid, regularization):
+                super().__init__(grid=grid, regularization=regularization)
+                self._n = n
+            @property
+            def params(self): return self._n
+            @property
+            def mapping_matrix(self): return np.ones((self.grid.shape[0], self._n))
+        _HFUNC["c"] = HarnessFuncList
+    return _HFUNC["c"]
+
+def make_any_reg(aa, s):
+    if s is None: return None
+    if s["name"] in KERNELS:
+        c, sc = [float(Fraction(x)) for x in s["par"]]
+        return (aa.reg.GaussianKernel if s["name"] == "GaussianKernel" else aa.reg.ExponentialKernel)(coefficient=c, scale=sc)
+    return make_reg(aa, s)
+
+def real_dataset(aa, inp):
+    import random
+    rng = random.Random(inp["seed"])
+    m = np.array([[c == "1" for c in r] for r in inp["mask"]])
+    mask = aa.Mask2D(mask=m, pixel_scales=1.0)
+    sh = m.shape
+    data = aa.Array2D.no_mask(values=np.array([[float(rng.randint(1, 16)) for _ in range(sh[1])] for _ in range(sh[0])]), pixel_scales=1.0)
+    noise = aa.Array2D.no_mask(values=np.full(sh, 2.0), pixel_scales=1.0)
+    psf = aa.Kernel2D.no_mask(values=np.array([[0.0, 0.0, 0.0], [0.0, 1.0, 0.0], [0.0, 0.0, 0.0]]), pixel_scales=1.0)
+    ds = aa.Imaging(data=data, noise_map=noise, psf=psf).apply_mask(mask=mask)
+    return ds, mask, rng
+
+def build_real_obj(aa, d, mask, grid, adapt):
+    """returns the linear object (scheme attached) or None when the generated point set is degenerate"""
+    reg = make_any_reg(aa, dict(d["scheme"], signal_scale=d["signal_scale"]) if d["scheme"] else None)
+    k = d["kind"]
+    if k == "func": return aa.m.MockLinearObjFuncList(parameters=d["params"], grid=grid, mapping_matrix=np.ones((grid.shape[0], d["params"])), regularization=reg)
+    if k == "funcsub": return hfunc_cls(aa)(d["params"], grid, reg)
+    if k == "lin": return aa.m.MockLinearObj(parameters=d["params"], grid=grid, mapping_matrix=np.ones((grid.shape[0], d["params"])), regularization=reg)
+    if k == "rect":
+        mesh = aa.Mesh2DRectangular.overlay_grid(shape_native=tuple(d["shape"]), grid=grid)
+    else:
+        import random
+        r2 = random.Random(d["seed"])
+        pts = set()
+        while len(pts) < d["npts"]: pts.add((r2.randint(-8, 8) / 4.0, r2.randint(-8, 8) / 4.0))
+        pts = sorted(pts); r2.shuffle(pts)
+        try:
+            mesh = aa.Mesh2DDelaunay(values=aa.Grid2DIrregular(pts)); mesh.delaunay
+        except Exception:
+            return None
+    mg = aa.MapperGrids(mask=mask, source_plane_data_grid=grid, source_plane_mesh_grid=mesh, adapt_data=adapt)
+    return aa.Mapper(mapper_grids=mg, over_sampler=aa.OverSamplerUniform(mask=mask, sub_size=1), regularization=reg)
+
+def lobj_of(d, lo):
+    """what the object hands to its scheme, as the Coq record (exact rationals)"""
+    s = d["scheme"]
+    empty = {"params": int(lo.params), "nb": [], "sizes": [], "signals": [], "smap": [], "ssizes": [], "sw": []}
+    if s is None or s["name"] in KERNELS: return empty
+    if d["kind"] in ("rect", "delaunay"):
+        return obj_from_mapper(lo, s, d["signal_scale"], d["kind"] == "delaunay")
+    if s["name"] == "Zeroth": return empty
+    nb = lo.neighbors
+    return dict(empty, nb=[[int(x) for x in r] for r in np.asarray(nb)], sizes=[int(x) for x in np.asarray(nb.sizes)])
+
+def run_realinv(aa, inp):
+    ds, mask, rng = real_dataset(aa, inp)
+    grid = aa.Grid2D.from_mask(mask=mask)
+    npix = grid.shape[0]
+    adapt = aa.Array2D(values=np.array([float(rng.randint(1, 16)) for _ in range(npix)]), mask=mask)
+    def build():
+        return [build_real_obj(aa, d, mask, grid, adapt) for d in inp["objs"]]
+    objs = build()
+    if any(o is None for o in objs):
+        return {"coq": None, "out": "degenerate point set", "py_ok": None, "kind": "realinv:skipped", "nontrivial": False}
+    has_mapper = any(d["kind"] in ("rect", "delaunay") for d in inp["objs"])
+    # the routes to the real AbstractInversion.regularization_matrix / _reduced (fresh inversion per route: cached properties)
+    routes = [("Inversion", lambda L: aa.Inversion(dataset=ds, linear_obj_list=L, settings=aa.SettingsInversion(use_w_tilde=False))),
+              ("Inversion:w_tilde", lambda L: aa.Inversion(dataset=ds, linear_obj_list=L, settings=aa.SettingsInversion(use_w_tilde=True))),
+              ("InversionImagingMapping", lambda L: aa.InversionImagingMapping(dataset=ds, linear_obj_list=L, settings=aa.SettingsInversion())),
+              ("MockInversion", lambda L: aa.m.MockInversion(linear_obj_list=L))]
+    if has_mapper:
+        routes.append(("InversionImagingWTilde", lambda L: aa.InversionImagingWTilde(dataset=ds, w_tilde=ds.w_tilde, linear_obj_list=L, settings=aa.SettingsInversion())))
+    obs, classes = [], {}
+    for name, mk in routes:
+        inv = mk(objs)
+        classes[name] = type(inv).__name__
+        H = mat_out(inv.regularization_matrix)
+        Hr = mat_out(mk(objs).regularization_matrix_reduced)       # on a fresh inversion: not through the cached full matrix
+        Hr2 = mat_out(inv.regularization_matrix_reduced)
+        obs.append((name, H, Hr))
+        if Hr2 != Hr: obs.append((name + ":cached", H, Hr2))
+    blocks = [mat_out(lo.regularization_matrix) for lo in objs]
+    kernel = any(d["scheme"] and d["scheme"]["name"] in KERNELS for d in inp["objs"])
+    L = [lobj_of(d, lo) for d, lo in zip(inp["objs"], objs)]
+    def term(H, Hr):
+        if kernel:
+            sz = clist([ctup([cnat(int(lo.params)), cbool(d["scheme"] is not None)]) for d, lo in zip(inp["objs"], objs)])
+            return f"(KAssembly {sz} {clist([cqm(b) for b in blocks])} {cqm(H)} {cqm(Hr)})"
+        to = []
+        for d, o in zip(inp["objs"], L):
+            to.append("(None, " + clobj(fo(o)) + ")" if d["scheme"] is None else "(Some " + cscheme(d["scheme"]) + ", " + clobj(fo(o)) + ")")
+        return f"(KInversion {clist(to)} {clist([cqm(b) for b in blocks])} {cqm(H)} {cqm(Hr)})"
+    terms, seen = [], []
+    for name, H, Hr in obs:
+        if (H, Hr) not in seen:
+            seen.append((H, Hr)); terms.append(term(H, Hr))
+    ok = True
+    notes = {}
+    if kernel and inp.get("check_blocks", True):
+        # the blocks themselves: scheme model for the seven schemes, the inverse contract for the kernel schemes
+        for d, o, lo, B in zip(inp["objs"], L, objs, blocks):
+            s = d["scheme"]
+            if s is None: continue
+            if s["name"] in KERNELS:
+                if s["name"] == "GaussianKernel": from autoarray.inversion.regularization.gaussian_kernel import gauss_cov_matrix_from as cov_from
+                else: from autoarray.inversion.regularization.exponential_kernel import exp_cov_matrix_from as cov_from
+                C = np.asarray(cov_from(scale=float(Fraction(s["par"][1])), pixel_points=np.array(lo.source_plane_mesh_grid)), dtype=float)
+                terms.append(f"(KKernel {cq(Fraction(s['par'][0]))} {cqm(mat_out(C))} {cqm(B)})")
+                try: np.linalg.cholesky(C)
+                except Exception: ok = False; notes["kernel"] = "covariance not positive definite"
+            else:
+                terms.append(f"(KMatrix {cscheme(s)} {clobj(fo(o))} {cres_m(('ok', B))})")
+    # Python-side observations: every regularized block symmetric and PD / PSD as the theorems state; the reduced matrix PD when
+    # every regularized block is; weights per object
+    all_pd = True
+    for d, o, lo, B in zip(inp["objs"], L, objs, blocks):
+        s = d["scheme"]
+        if s is None: continue
+        if s["name"] in KERNELS:
+            Bn = np.array([[float(x) for x in r] for r in B])
+            if np.abs(Bn - Bn.T).max() > 1e-9 * max(1.0, np.abs(Bn).max()): ok = False; notes["sym"] = d["kind"]
+            try: np.linalg.cholesky(Bn)
+            except Exception: ok = False; notes["pd"] = d["kind"]
+            continue
+        wf = wf_of(s, o)
+        if not wf: ok = False; notes["wf"] = d["kind"]     # a real object (mesh or function list) must hand over a well-formed table
+        r = pd_observed(("ok", B), s["name"], wf)
+        if r is False: ok = False; notes["pd"] = d["kind"] + ":" + s["name"]
+        if s["name"] not in PD_SCHEMES or not wf: all_pd = False
+        if s["name"] == "Zeroth" and Fraction(s["par"][0]) == 0: all_pd = False
+    Hr0 = np.array([[float(x) for x in r] for r in obs[0][2]], dtype=float)
+    if all_pd and Hr0.size:
+        try: np.linalg.cholesky(Hr0)
+        except Exception: ok = False; notes["reduced"] = "not positive definite"
+    inv = routes[0][1](objs)
+    for i, (d, lo) in enumerate(zip(inp["objs"], objs)):
+        w = np.asarray(inv.regularization_weights_from(index=i), dtype=float)
+        if d["scheme"] is None: good = w.shape == (int(lo.params),) and bool(np.all(w == 0.0))
+        else: good = bool(np.array_equal(w, np.asarray(lo.regularization.regularization_weights_from(linear_obj=lo), dtype=float)))
+        if not good: ok = False; notes["weights"] = i
+    order = [d["kind"] + ":" + (d["scheme"]["name"] if d["scheme"] else "None") for d in inp["objs"]]
+    mixed = any(d["scheme"] is None for d in inp["objs"]) and any(d["scheme"] and d["kind"] in ("func", "funcsub", "lin") for d in inp["objs"])
+    return {"coq": terms[0], "extra_coq": terms[1:],
+            "out": {"order": order, "classes": classes, "shape": [len(obs[0][1]), len(obs[0][2])], "routes_distinct": len(seen), "notes": notes,
+                    "matrix": summary(("ok", obs[0][1]))},
+            "py_ok": ok, "kind": "realinv:%d%s%s" % (len(objs), ":mixed" if mixed else "", ":kernel" if kernel else ""),
+            "nontrivial": len(objs) >= 2}
+
+def run_kernelx(aa, inp):
+    """kernel schemes on an extended mesh: every covariance entry (far pairs included) against the profile table, and the
+    Python-side SPD observation (thresholds with margins: the covariance is near-singular up to its 1e-8 ridge by design)"""
+    import random
+    rng = random.Random(inp["seed"])
+    h, w = inp["shape"]
+    scale = Fraction(inp["scale"]); sp = Fraction(inp["spacing"]) * scale
+    if inp["mesh"] == "rect":
+        pts = [(sp * (h - 1) / 2 - sp * r, sp * c - sp * (w - 1) / 2) for r in range(h) for c in range(w)]     # row-major, top row first
+    else:
+        pts = [(sp * r, sp * c + (sp / 2 if r % 2 else 0)) for r in range(h) for c in range(w)]                 # staggered rows
+        for _ in range(inp["drop"]): pts.pop(rng.randrange(len(pts)))
+        rng.shuffle(pts)
+    arr = np.array([[float(y), float(x)] for y, x in pts])
+    fs, coef = float(scale), float(Fraction(inp["coef"]))
+    if inp["gauss"]:
+        from autoarray.inversion.regularization.gaussian_kernel import gauss_cov_matrix_from as cov_from
+        reg = aa.reg.GaussianKernel(coefficient=coef, scale=fs)
+        prof = lambda d2: float(np.exp(-1.0 * np.sqrt(d2) ** 2 / (2 * fs ** 2)))
+    else:
+        from autoarray.inversion.regularization.exponential_kernel import exp_cov_matrix_from as cov_from
+        reg = aa.reg.ExponentialKernel(coefficient=coef, scale=fs)
+        prof = lambda d2: float(np.exp(-1.0 * np.sqrt(d2) / fs))
+    mask = aa.Mask2D.all_false(shape_native=(3, 3), pixel_scales=1.0)
+    grid = aa.Grid2D.from_mask(mask=mask)
+    if inp["mesh"] == "rect": mesh = aa.Mesh2DRectangular(values=arr, shape_native=(h, w), pixel_scales=float(sp))
+    else: mesh = aa.Mesh2DDelaunay(values=aa.Grid2DIrregular(arr))
+    mg = aa.MapperGrids(mask=mask, source_plane_data_grid=grid, source_plane_mesh_grid=mesh)
+    mapper = aa.Mapper(mapper_grids=mg, over_sampler=aa.OverSamplerUniform(mask=mask, sub_size=1), regularization=reg)
+    C = np.asarray(cov_from(scale=fs, pixel_points=arr), dtype=float)
+    H = np.asarray(mapper.regularization_matrix, dtype=float)            # LinearObj.regularization_matrix -> scheme -> covariance -> inv
+    tbl, far = {}, 0
+    for i, (y1, x1) in enumerate(pts):
+        for (y2, x2) in pts[i:]:
+            d2 = (x1 - x2) ** 2 + (y1 - y2) ** 2
+            if d2 > 25 * scale * scale: far += 1
+            if d2 not in tbl: tbl[d2] = frac(prof(np.float64(float(d2))))
+    cpts = clist([ctup([cq(y), cq(x)]) for (y, x) in pts])
+    ctbl = clist([ctup([cq(k), cq(v)]) for k, v in sorted(tbl.items())])
+    # the matrix as indexes into the list of its distinct values (exact; a 144 x 144 matrix of 53-bit rationals takes Coq a
+    # minute to parse)
+    M = mat_out(C)
+    vals = sorted({x for r in M for x in r}); pos = {x: i for i, x in enumerate(vals)}
+    t1 = f"(KCovX {cpts} {ctbl} {cqv(vals)} {clist([czl([pos[x] for x in r]) for r in M])})"
+    n = len(pts)
+    notes = {}
+    ok = H.shape == (n, n)
+    hmax = max(1.0, float(np.abs(H).max()))
+    if ok:
+        if np.abs(H - H.T).max() > 1e-6 * hmax: ok = False; notes["sym"] = float(np.abs(H - H.T).max() / hmax)
+        try: np.linalg.cholesky(C)
+        except Exception: ok = False; notes["cov"] = "Cholesky of the covariance fails"
+        emin = float(np.linalg.eigvalsh((C + C.T) / 2).min())
+        if emin < 0.5e-8: ok = False; notes["cov_min_eig"] = emin              # exact arithmetic: >= 1e-8 (ridge + PSD kernel)
+        hmin = float(np.linalg.eigvalsh((H + H.T) / 2).min())
+        if hmin < -1e-6 * hmax: ok = False; notes["reg_min_eig"] = hmin
+        res = float(np.abs(C @ H / coef - np.eye(n)).max())
+        if res > 1e-4: ok = False; notes["inverse_contract"] = res
+        notes.update(min_eig_cov=emin, min_eig_reg=hmin, residual=res)
+    return {"coq": t1, "out": {"n": n, "far_pairs": far, "distinct_d2": len(tbl), "extent_in_scales": float(max(np.ptp(arr[:, 0]), np.ptp(arr[:, 1])) / fs), "notes": notes},
+            "py_ok": bool(ok), "kind": "kernelx:" + ("gauss" if inp["gauss"] else "exp") + ":" + inp["mesh"], "nontrivial": far > 0}
